@@ -974,3 +974,51 @@ Example ex_full_valid_tar :
   | _ => False
   end.
 Proof. exact ImgValid.Example.ex_full_valid_tar. Qed.
+
+(* ---------------------------------------------------------------------------------------------------------------------
+   Strengthening, session 3 (seed C03-8): capacity of the 16-bit fields that refer to the id table (coq/C03/Capacity.v).
+   [c_id_table_accepts] (coq/C03/GenC03Cap.v) is probed on the working tree by props/C03/h_cap.c on every run of THIS
+   check (GenC01.c_id_table_limit above is regenerated by the C01 check only): the number of distinct ids the real
+   sqfs_id_table_id_to_index accepts, with the widths of sqfs_super_t.id_count and sqfs_inode_t.uid_idx from the headers.
+   --------------------------------------------------------------------------------------------------------------------- *)
+From SqfsV Require C01.IdProofs C03.GenC03Cap C03.Capacity.
+
+(* the NEED: the table the working tree's id_to_index builds fits the 16-bit count field and the 16-bit index fields *)
+Theorem id_limit_fits_16_bits :
+  GenC03Cap.c_id_table_accepts <= 65535 /\ GenC03Cap.c_id_table_accepts < 2 ^ GenC03Cap.c_id_count_field_bits /\
+  GenC03Cap.c_id_table_accepts < 2 ^ GenC03Cap.c_id_index_field_bits /\ 2 ^ GenC03Cap.c_id_count_field_bits = 65536.
+Proof. exact Capacity.id_accepts_fits. Qed.
+Print Assumptions id_limit_fits_16_bits.
+
+(* every run of lookups the table accepts: the u16 store of the count is lossless (id_count = number of ids) and every
+   index handed to an inode is below the stored count and reads back to the id *)
+Theorem id_count_fits_16_bits : forall ids t idxs,
+  IdProofs.id_run GenC03Cap.c_id_table_accepts [] ids = Res.Ok (t, idxs) ->
+  Res.nlen t <= 65535 /\ InodeModel.id_count_field t = Res.nlen t /\ length idxs = length ids /\
+  forall k id, nth_error ids k = Some id ->
+    exists i, nth_error idxs k = Some i /\ i < InodeModel.id_count_field t /\ InodeModel.index_to_id t i = Some id.
+Proof. exact Capacity.id_count_fits_16_bits_l. Qed.
+Print Assumptions id_count_fits_16_bits.
+
+(* more distinct ids than that: the run is refused (no image is written), the count does not wrap *)
+Theorem id_capacity_refuses : forall ids l,
+  NoDup l -> incl l ids -> GenC03Cap.c_id_table_accepts < Res.nlen l ->
+  exists e, IdProofs.id_run GenC03Cap.c_id_table_accepts [] ids = Res.Err e.
+Proof. exact Capacity.id_capacity_refuses_l. Qed.
+Print Assumptions id_capacity_refuses.
+
+(* the need is tight (refuted variant for a table that accepts 65536 ids): 65536 distinct ids are all accepted, the stored
+   count is 0, no index is below it, and no reader gets the table back.  The capacity leg of the check
+   (props/C03/cap_stage.py) offers exactly this input to the implementation at the library and at the tool level. *)
+Theorem id_count_wraps_at_65536_refuted :
+  exists ids t idxs, NoDup ids /\ Res.nlen ids = 65536 /\ IdProofs.id_run 65536 [] ids = Res.Ok (t, idxs) /\
+    Res.nlen t = 65536 /\ InodeModel.id_count_field t = 0 /\ (forall i, ~ i < InodeModel.id_count_field t) /\
+    forall payload, InodeModel.id_table_read (InodeModel.id_count_field t) payload = Res.Err c_SQFS_ERROR_CORRUPTED.
+Proof. exact Capacity.id_count_wraps_at_65536_l. Qed.
+Print Assumptions id_count_wraps_at_65536_refuted.
+
+(* non-vacuity: five lookups (two repeated ids) at the tree's constant *)
+Example ex_id_run_small :
+  IdProofs.id_run GenC03Cap.c_id_table_accepts [] [1000; 0; 1000; 4294967295; 0]
+  = Res.Ok ([1000; 0; 4294967295], [0; 1; 0; 2; 1]).
+Proof. exact Capacity.ex_id_run_small. Qed.
